@@ -112,7 +112,7 @@ fn script_fields(c: &SCfg, out: &mut Vec<FieldDef>) {
     out.push(fd(&n("opcode"), c.op_bits, c.op_bits == 8, FK::Int));
     out.push(fd(&n("opcode_map"), c.op_bits, c.op_bits == 8, FK::Int));
     if c.mask_bits > 0 { out.push(fd(&n("mask"), c.mask_bits, false, FK::Int)); } else { out.push(fd(&n("mask"), 0, false, FK::NoSlot)); }
-    if c.has_diff { out.push(fd(&n("diff"), 8, false, FK::Diff)); }
+    if c.has_diff { out.push(fd(&n("diff"), 8, false, FK::Diff)); out.push(fd(&n("diff_nested"), 8, false, FK::Diff)); }
     if c.has_arg0 { out.push(fd(&n("arg0"), 16, true, FK::Int)); }
     out.push(fd(&n("arg_s"), 16, true, FK::Int));
     out.push(fd(&n("arg_u"), 16, false, FK::Int));
@@ -428,9 +428,17 @@ fn probe_script_body(c: &SCfg, ov: &Ov, map: &mut MapB, key: &str, wants: &mut V
         s += &format!("    {{\"-*+{digits}\"}}:\n");
         wants.push((format!("{key}.i{k}.diff"), Want::Int(d)));
     }
+    // the same label on a statement inside a block that carries another label: the statement's own label decides
+    let diff_nested = ov.get(&f("diff_nested"));
+    if let Some(d) = diff_nested {
+        let digits: String = (0..8).filter(|b| d >> b & 1 == 1).map(|b| char::from(b'0' + b as u8)).collect();
+        s += &format!("    {{\"-*+0\"}}: {{\n    {{\"-*+{digits}\"}}:\n");
+        wants.push((format!("{key}.i{k}.diff"), Want::Int(d)));
+    }
     if c.fixed12 { s += &format!("    {callee}({pseudo}7, 8, 9);\n"); wants.push((format!("{key}.i{k}.args"), Want::Bytes([le(7, 4), le(8, 4), le(9, 4)].concat()))); }
     else { s += &format!("    {callee}({pseudo}7);\n"); wants.push((format!("{key}.i{k}.args"), Want::Bytes(le(7, 4)))); }
     push_common(wants, k, time, opcode);
+    if diff_nested.is_some() { s += "    }\n"; }
     if diff.is_some() { s += "    {\"*\"}:\n"; }
     k += 1;
 
